@@ -267,7 +267,17 @@ func (r *rewriter) hooks(fd *ast.FuncDecl) {
 		fd.Type.Params != nil && len(fd.Type.Params.List) == 1 && len(fd.Type.Params.List[0].Names) == 1 {
 		recv := fd.Recv.List[0].Names[0].Name
 		par := fd.Type.Params.List[0].Names[0].Name
-		src := fmt.Sprintf("simsync.Hook(%q, %s.procConf.ReplicaName, %s)", "state", recv, par)
+		nameExpr := recv + ".procConf.ReplicaName"
+		if r.pkg.Types.Scope().Lookup("Process") != nil {
+			if named, ok := r.pkg.Types.Scope().Lookup("Process").Type().(*types.Named); ok {
+				for i := 0; i < named.NumMethods(); i++ {
+					if named.Method(i).Name() == "getName" {
+						nameExpr = recv + ".getName()" // the locked accessor, if the tree has one
+					}
+				}
+			}
+		}
+		src := fmt.Sprintf("simsync.Hook(%q, %s, %s)", "state", nameExpr, par)
 		e, err := parseExpr(src)
 		if err != nil {
 			fail("hook: %v", err)
